@@ -65,8 +65,17 @@ pub fn mem() -> &'static mut PhysMem {
 pub const GUARD_FRAME: u64 = 0x000d_ead0_0000_0000 & ADDR_MASK;
 pub fn junk_word(frame: u64, i: usize) -> u64 {
     let h = (frame >> 12).wrapping_mul(0x9E37_79B9_7F4A_7C15).wrapping_add((i as u64).wrapping_mul(0x1234_5678_9ABC_DEF1));
-    // present | writable | some flag noise, address = guard frame (+ noise above bit 12 kept small)
-    GUARD_FRAME | 0x3 | (h & 0x60) | ((h >> 20) & 0x8000_0000_0000_0000)
+    let h = h ^ (h >> 29);
+    // a mix of shapes, all non-zero and all leading to the guard frame when followed:
+    //   1/2 present "table" entries, 1/4 present entries with the huge-page bit, 1/4 non-present but non-zero
+    // so that code which wrongly interprets a data frame or an un-zeroed frame as a table gets
+    // different answers (Ok / huge / not mapped) on different slots instead of one lucky constant.
+    let noise = (h & 0x60) | ((h >> 20) & 0x8000_0000_0000_0000);
+    match h & 3 {
+        0 | 1 => GUARD_FRAME | 0x3 | noise,
+        2 => GUARD_FRAME | 0x83 | noise,
+        _ => GUARD_FRAME | 0x2 | noise,
+    }
 }
 
 unsafe fn mmap_fixed(addr: u64, len: u64, prot: i32, flags: i32, fd: i32, off: u64) -> bool {
